@@ -567,6 +567,58 @@ impl World {
     }
 }
 
+/// decrease orders on the same narrow slice (LONG position, LONG-token collateral, no swap path)
+impl World {
+    fn claimable_key(&self, mint: &Pubkey, owner: &Pubkey, ts: i64) -> Pubkey {
+        let st: Box<gmsol_store::states::Store> = Box::new(pod(&self.b.get(&self.store).data));
+        let key = st.claimable_time_key(ts).expect("time key");
+        Pubkey::find_program_address(&[gmsol_store::constants::CLAIMABLE_ACCOUNT_SEED, self.store.as_ref(), mint.as_ref(), owner.as_ref(), &key], &gmsol_store::ID).0
+    }
+    fn holding(&self) -> Pubkey { let st: Box<gmsol_store::states::Store> = Box::new(pod(&self.b.get(&self.store).data)); *st.holding() }
+    /// `use_claimable_account` for the three accounts a decrease execution needs (keeper pays)
+    fn prepare_claimables(&mut self, owner: Pubkey, ts: i64) -> std::result::Result<[Pubkey; 3], (ProgramError, bool)> {
+        let (l, s, k, h) = (self.long, self.short, self.keeper, self.holding());
+        let accs = [(l, owner), (s, owner), (l, h)];
+        let mut keys = [Pubkey::default(); 3];
+        for (i, (mint, who)) in accs.into_iter().enumerate() {
+            let acc = self.claimable_key(&mint, &who, ts);
+            self.b.run(gmsol_store::ID, &[sg(k), ro(self.store), ro(mint), ro(who), rw(acc), ro(SYS), ro(spl_token::ID)],
+                &gmsol_store::instruction::UseClaimableAccount { timestamp: ts, amount: 0 }.data())?;
+            keys[i] = acc;
+        }
+        Ok(keys)
+    }
+    fn create_decrease_order(&mut self, owner: Pubkey, receiver: Pubkey, nonce: [u8; 32], collateral_withdraw: u64, size: u128, acceptable: Option<u128>, exec_lamports: u64) -> std::result::Result<PosOrd, (ProgramError, bool)> {
+        let key = self.order_key(&owner, &nonce);
+        let params = gmsol_store::ops::order::CreateOrderParams { kind: gmsol_utils::order::OrderKind::MarketDecrease, decrease_position_swap_type: Some(gmsol_model::action::decrease_position::DecreasePositionSwapType::NoSwap), execution_lamports: exec_lamports,
+            swap_path_length: 0, initial_collateral_delta_amount: collateral_withdraw, size_delta_value: size, is_long: true, is_collateral_long: true, min_output: None,
+            trigger_price: None, acceptable_price: acceptable, should_unwrap_native_token: false, valid_from_ts: None };
+        let pid = gmsol_store::ID;
+        let (l, s) = (self.long, self.short);
+        let metas = [sg(owner), ro(receiver), ro(self.store), rw(self.market), rw(self.user_header_key(&owner)), rw(key), rw(self.position_key(&owner)),
+            ro(pid), ro(l), ro(l), ro(s), ro(pid), rw(ata(&key, &l)), rw(ata(&key, &l)), rw(ata(&key, &s)), ro(pid),
+            ro(SYS), ro(spl_token::ID), ro(ata_prog::ID), ro(pid), ro(pid), ro(pid), ro(pid), ro(self.event_authority), ro(pid)];
+        self.b.run(pid, &metas, &gmsol_store::instruction::CreateOrderV2 { nonce, params, callback_version: None }.data())?;
+        Ok(PosOrd { owner, receiver, key, exec_lamports })
+    }
+    fn execute_decrease_order(&mut self, authority: Pubkey, o: &PosOrd, execution_fee: u64, throw: bool, claim: &[Pubkey; 3], ts: i64) -> std::result::Result<(), (ProgramError, bool)> {
+        let pid = gmsol_store::ID;
+        let (l, s) = (self.long, self.short);
+        let metas = [sg(authority), rw(self.store), ro(self.token_map), rw(self.oracle), rw(self.market), rw(o.owner), rw(self.user_header_key(&o.owner)), rw(o.key), rw(self.position_key(&o.owner)), rw(self.trade_event_key()),
+            ro(l), ro(l), ro(s), rw(ata(&o.key, &l)), rw(ata(&o.key, &l)), rw(ata(&o.key, &s)), rw(self.long_vault), rw(self.long_vault), rw(self.short_vault),
+            rw(claim[0]), rw(claim[1]), rw(claim[2]), ro(spl_token::ID), ro(SYS), ro(pid), ro(pid), ro(pid), ro(pid), ro(self.event_authority), ro(pid), ro(self.feeds[0]), ro(self.feeds[1])];
+        self.b.run(pid, &metas, &gmsol_store::instruction::ExecuteDecreaseOrderV2 { recent_timestamp: ts, execution_fee, throw_on_execution_error: throw }.data())
+    }
+    fn close_decrease_order(&mut self, executor: Pubkey, o: &PosOrd) -> std::result::Result<(), (ProgramError, bool)> {
+        let pid = gmsol_store::ID;
+        let (l, s) = (self.long, self.short);
+        let metas = [sg(executor), rw(self.store), rw(self.store_wallet), rw(o.owner), rw(o.receiver), rw(o.owner), rw(self.user_header_key(&o.owner)), ro(pid), rw(o.key),
+            ro(pid), ro(l), ro(l), ro(s), ro(pid), rw(ata(&o.key, &l)), rw(ata(&o.key, &l)), rw(ata(&o.key, &s)),
+            ro(pid), rw(ata(&o.receiver, &l)), rw(ata(&o.receiver, &l)), rw(ata(&o.receiver, &s)), ro(SYS), ro(spl_token::ID), ro(ata_prog::ID), ro(pid), ro(pid), ro(pid), ro(pid), ro(self.event_authority), ro(pid)];
+        self.b.run(pid, &metas, &gmsol_store::instruction::CloseOrderV2 { reason: "test".to_string() }.data())
+    }
+}
+
 fn smoke() {
     let mut w = World::new();
     let u = w.user(0, 1_000_000_000_000, 5_000_000_000);
@@ -593,6 +645,26 @@ fn smoke() {
     println!("order escrow long {:?} vaults {:?} rec {:?}", token_amount(&w.b, &ata(&ok, &l)), (token_amount(&w.b, &w.long_vault), token_amount(&w.b, &w.short_vault)), { let m: Box<gmsol_store::states::Market> = Box::new(pod(&w.b.get(&w.market).data)); (m.state().long_token_balance_raw(), m.state().short_token_balance_raw()) });
     let r = w.close_increase_order(u, &o);
     println!("close increase: {r:?} cpis={:?}", CPI_LOG.lock().unwrap());
+    let now = NOW.load(Ordering::SeqCst);
+    let psize = |w: &World| { let a = w.b.get(&w.position_key(&u)); if a.data.is_empty() { None } else { let p: gmsol_store::states::position::Position = pod(&a.data); Some((p.state.size_in_usd / unit, p.state.collateral_amount)) } };
+    println!("position {:?}", psize(&w));
+    for (j, (size, price)) in [(100 * unit, 150u128), (200 * unit - unit / 2, 165)].into_iter().enumerate() {
+        let n = [20 + j as u8; 32];
+        let ok2 = w.order_key(&u, &n);
+        for m in [l, sh] { w.prepare_escrow(u, ok2, m).unwrap(); }
+        let r = w.create_decrease_order(u, u, n, 0, size, None, 400_000);
+        println!("create decrease: {:?}", r.as_ref().map(|_| ()));
+        let Ok(o2) = r else { return };
+        w.set_prices(price * 100000000, 1_00000000, now);
+        let cl = w.prepare_claimables(u, now);
+        println!("claimables: {:?} cpis={:?}", cl.as_ref().map(|_| ()), CPI_LOG.lock().unwrap());
+        let Ok(cl) = cl else { return };
+        let r = w.execute_decrease_order(w.keeper, &o2, 100_000, true, &cl, now);
+        println!("exec decrease: {r:?} cpis={:?}", CPI_LOG.lock().unwrap());
+        println!("  position {:?} escrow long {:?} short {:?} vaults {:?} claim {:?}", psize(&w), token_amount(&w.b, &ata(&ok2, &l)), token_amount(&w.b, &ata(&ok2, &sh)), (token_amount(&w.b, &w.long_vault), token_amount(&w.b, &w.short_vault)), cl.iter().map(|k| token_amount(&w.b, k)).collect::<Vec<_>>());
+        let r = w.close_decrease_order(u, &o2);
+        println!("close decrease: {r:?} cpis={:?} user long {:?}", CPI_LOG.lock().unwrap(), token_amount(&w.b, &ata(&u, &l)));
+    }
 }
 
 // ---------------------------------------------------------------- harness: protocol, oracle, generator
@@ -603,12 +675,12 @@ const LONG0: u64 = 1_000_000_000_000;
 const SHORT0: u64 = 5_000_000_000;
 
 #[derive(Clone)]
-enum Handle { D(Dep), W(Wd), O(Ord), P(PosOrd) }
+enum Handle { D(Dep), W(Wd), O(Ord), P(PosOrd), X(PosOrd) }
 impl Handle {
-    fn key(&self) -> Pubkey { match self { Handle::D(d) => d.key, Handle::W(w) => w.key, Handle::O(o) => o.key, Handle::P(o) => o.key } }
-    fn owner(&self) -> Pubkey { match self { Handle::D(d) => d.owner, Handle::W(w) => w.owner, Handle::O(o) => o.owner, Handle::P(o) => o.owner } }
-    fn receiver(&self) -> Pubkey { match self { Handle::D(d) => d.receiver, Handle::W(w) => w.receiver, Handle::O(o) => o.receiver, Handle::P(o) => o.receiver } }
-    fn exec_lamports(&self) -> u64 { match self { Handle::D(d) => d.exec_lamports, Handle::W(w) => w.exec_lamports, Handle::O(o) => o.exec_lamports, Handle::P(o) => o.exec_lamports } }
+    fn key(&self) -> Pubkey { match self { Handle::D(d) => d.key, Handle::W(w) => w.key, Handle::O(o) => o.key, Handle::P(o) | Handle::X(o) => o.key } }
+    fn owner(&self) -> Pubkey { match self { Handle::D(d) => d.owner, Handle::W(w) => w.owner, Handle::O(o) => o.owner, Handle::P(o) | Handle::X(o) => o.owner } }
+    fn receiver(&self) -> Pubkey { match self { Handle::D(d) => d.receiver, Handle::W(w) => w.receiver, Handle::O(o) => o.receiver, Handle::P(o) | Handle::X(o) => o.receiver } }
+    fn exec_lamports(&self) -> u64 { match self { Handle::D(d) => d.exec_lamports, Handle::W(w) => w.exec_lamports, Handle::O(o) => o.exec_lamports, Handle::P(o) | Handle::X(o) => o.exec_lamports } }
 }
 type Id = (u8, char, u8);
 struct Sid { w: World, now: i64, acts: BTreeMap<Id, Handle>, changes: BTreeMap<Id, u32>, fees: [u128; 3], lam0: [u128; 3] }
@@ -617,7 +689,7 @@ fn parse_id(t: &str) -> Option<Id> {
     let p: Vec<&str> = t.split('.').collect();
     if p.len() != 3 || p[1].len() != 1 { return None; }
     let (u, k, i) = (p[0].parse::<u8>().ok()?, p[1].chars().next()?, p[2].parse::<u8>().ok()?);
-    (u < NUSERS && i < NSLOTS && "dwsti".contains(k)).then_some((u, k, i))
+    (u < NUSERS && i < NSLOTS && "dwstix".contains(k)).then_some((u, k, i))
 }
 fn user_key(u: u8) -> Pubkey { Pubkey::new_from_array([100 + u; 32]) }
 fn nonce_of(k: char, i: u8) -> [u8; 32] { [(k as u8).wrapping_mul(7).wrapping_add(i + 1); 32] }
@@ -643,12 +715,21 @@ fn esc(w: &World, key: &Pubkey) -> (u64, u64, u64) { (bal(w, key, &w.long), bal(
 fn vaults(w: &World) -> (u64, u64) { (token_amount(&w.b, &w.long_vault).unwrap_or(0), token_amount(&w.b, &w.short_vault).unwrap_or(0)) }
 fn recorded(w: &World) -> (u64, u64) { let m: Box<gmsol_store::states::Market> = Box::new(pod(&w.b.get(&w.market).data)); (m.state().long_token_balance_raw(), m.state().short_token_balance_raw()) }
 
+fn pos_info(w: &World, u: u8) -> Option<u128> { let a = w.b.get(&w.position_key(&user_key(u))); if a.data.is_empty() { None } else { let p: gmsol_store::states::position::Position = pod(&a.data); Some(p.state.size_in_usd / 1_000_000_000_000_000_000u128) } }
+/// tokens sitting in claimable accounts: every store-authority token account that is neither a vault nor the burn vault
+fn claim_totals(w: &World) -> (u64, u64) {
+    let (mut l, mut s) = (0u64, 0u64);
+    for (k, a) in &w.b.m { if a.owner == spl_token::ID && a.data.len() == spl_token::state::Account::LEN && ![w.long_vault, w.short_vault, w.mt_vault].contains(k) { if let Ok(acc) = spl_token::state::Account::unpack(&a.data) { if acc.owner == w.store { if acc.mint == w.long { l += acc.amount; } else if acc.mint == w.short { s += acc.amount; } } } } }
+    (l, s)
+}
 fn digest(s: &Sid) -> String {
     let w = &s.w;
     let users: Vec<String> = (0..NUSERS).map(|u| { let k = user_key(u); format!("{u}:{}:{}:{}", bal(w, &k, &w.long), bal(w, &k, &w.short), bal(w, &k, &w.market_token)) }).collect();
     let acts: Vec<String> = s.acts.keys().filter_map(|id| act_state(w, *id).map(|st| { let e = esc(w, &action_key(w, *id)); let rc = s.acts[id].receiver().to_bytes()[0] - 100; format!("{}.{}.{}:{st}:{}:{}:{}:r{rc}", id.0, id.1, id.2, e.0, e.1, e.2) })).collect();
     let (v, r) = (vaults(w), recorded(w));
-    format!("now={} users=[{}] acts=[{}] vault={}:{} rec={}:{} supply={}", s.now, users.join(","), acts.join(","), v.0, v.1, r.0, r.1, mint_supply(&w.b, &w.market_token))
+    let ps: Vec<String> = (0..NUSERS).map(|u| match pos_info(w, u) { Some(sz) => format!("{u}:{sz}"), None => format!("{u}:_") }).collect();
+    let c = claim_totals(w);
+    format!("now={} users=[{}] acts=[{}] vault={}:{} rec={}:{} supply={} pos=[{}] claim={}:{}", s.now, users.join(","), acts.join(","), v.0, v.1, r.0, r.1, mint_supply(&w.b, &w.market_token), ps.join(","), c.0, c.1)
 }
 
 /// token totals per mint over every token account in the ledger
@@ -661,7 +742,7 @@ fn totals(w: &World) -> BTreeMap<Pubkey, u128> {
 fn owner_side_lamports(w: &World, u: u8) -> u64 {
     let owner = user_key(u);
     let mut keys: Vec<Pubkey> = vec![owner];
-    for k in ['d', 'w', 's', 't', 'i'] { for i in 0..NSLOTS { keys.push(action_key(w, (u, k, i))); } }
+    for k in ['d', 'w', 's', 't', 'i', 'x'] { for i in 0..NSLOTS { keys.push(action_key(w, (u, k, i))); } }
     keys.push(w.position_key(&owner));
     keys.dedup();
     let mut seen: Vec<Pubkey> = Vec::new();
@@ -684,12 +765,13 @@ fn invariants(s: &Sid, before_tot: &BTreeMap<Pubkey, u128>, req: &str, out: &mut
 
 fn run_exec(w: &mut World, auth: Pubkey, h: &Handle, fee: u64, throw: bool) -> std::result::Result<(), (ProgramError, bool)> {
     let feeds = w.feeds;
-    match h { Handle::D(d) => w.execute_deposit(auth, d, fee, throw, true, true, &feeds), Handle::W(x) => w.execute_withdrawal(auth, x, fee, throw), Handle::O(o) => w.execute_swap_order(auth, o, fee, throw), Handle::P(o) => w.execute_increase_order(auth, o, fee, throw) }
+    match h { Handle::D(d) => w.execute_deposit(auth, d, fee, throw, true, true, &feeds), Handle::W(x) => w.execute_withdrawal(auth, x, fee, throw), Handle::O(o) => w.execute_swap_order(auth, o, fee, throw), Handle::P(o) => w.execute_increase_order(auth, o, fee, throw),
+        Handle::X(o) => { let ts = NOW.load(Ordering::SeqCst); let cl = w.prepare_claimables(o.owner, ts)?; w.execute_decrease_order(auth, o, fee, throw, &cl, ts) } }
 }
 /// the amounts only the pool maths decides: (x, y) = deposit (minted, 0) | withdrawal (out long, out short) | swap (out, 0)
 fn result_amounts(w: &World, id: Id, key: &Pubkey) -> (u64, u64) {
     let e = esc(w, key);
-    match id.1 { 'd' => (e.2, 0), 'w' => (e.0, e.1), 's' => (e.1, 0), 't' => (e.0, 0), _ => (0, 0) }
+    match id.1 { 'd' => (e.2, 0), 'w' | 'x' => (e.0, e.1), 's' => (e.1, 0), 't' => (e.0, 0), _ => (0, 0) }
 }
 
 fn exec(ss: &mut BTreeMap<String, Sid>, req: &str, out: &mut Out) -> (String, bool) {
@@ -719,17 +801,18 @@ fn exec(ss: &mut BTreeMap<String, Sid>, req: &str, out: &mut Out) -> (String, bo
             s.now += dt as i64;
             (format!("ok | {}", digest(s)), false)
         }
-        "price" => {
+        "price" | "pricex" => {
             let Some(age) = t.get(3).and_then(|x| x.parse::<u32>().ok()) else { return bad() };
-            if t.len() != 4 || age > 100_000 { return bad(); }
+            let p: u128 = if t[1] == "pricex" { match t.get(4).and_then(|x| x.parse::<u128>().ok()) { Some(p) if (1..=100_000).contains(&p) => p, _ => return bad() } } else { 150 };
+            if t.len() != if t[1] == "pricex" { 5 } else { 4 } || age > 100_000 { return bad(); }
             let now = s.now;
-            s.w.set_prices(150_00000000, 1_00000000, now - age as i64);
+            s.w.set_prices(p * 100_000_000, 1_00000000, now - age as i64);
             (format!("ok | {}", digest(s)), false)
         }
         "create" => {
             if t.len() != 9 { return bad(); }
             let (Some(id), Some(a), Some(b), Some(flag), Some(el), Some(rc)) = (parse_id(&format!("{}.{}.{}", t[3], t[4], t[5])), t[6].parse::<u64>().ok(), t[7].parse::<u64>().ok(), t[8].split(':').next().and_then(|x| x.parse::<u8>().ok()), t[8].split(':').nth(1).and_then(|x| x.parse::<u64>().ok()), t[8].split(':').nth(2).and_then(|x| x.parse::<u8>().ok())) else { return bad() };
-            if flag > 1 || el > 50_000_000 || (id.1 != 'd' && id.1 != 'i' && b != 0) || (id.1 == 'i' && b > 100_000_000) || rc >= NUSERS || t[8].split(':').count() != 3 { return bad(); }
+            if flag > 1 || el > 50_000_000 || (id.1 != 'd' && id.1 != 'i' && id.1 != 'x' && b != 0) || (id.1 == 'i' && b > 100_000_000) || rc >= NUSERS || t[8].split(':').count() != 3 { return bad(); }
             let receiver = user_key(rc);
             let owner = user_key(id.0);
             let key = action_key(&s.w, id);
@@ -745,6 +828,7 @@ fn exec(ss: &mut BTreeMap<String, Sid>, req: &str, out: &mut Out) -> (String, bo
             let r = match id.1 {
                 'd' => s.w.create_deposit(owner, receiver, nonce, a, b, if big { u64::MAX } else { 0 }, el, true, true).map(Handle::D),
                 'w' => s.w.create_withdrawal(owner, receiver, nonce, a, if big { u64::MAX } else { 0 }, 0, el).map(Handle::W),
+                'x' => s.w.create_decrease_order(owner, receiver, nonce, a, b as u128 * 1_000_000_000_000_000_000u128, if big { Some(u128::MAX) } else { None }, el).map(Handle::X),
                 'i' => s.w.create_increase_order(owner, receiver, nonce, a, b as u128 * 100_000_000_000_000_000_000u128, if big { Some(1) } else { None }, el).map(Handle::P),
                 k => s.w.create_swap_order(owner, receiver, nonce, k == 's', a, if big { u64::MAX as u128 } else { 0 }, el).map(Handle::O),
             };
@@ -764,16 +848,22 @@ fn exec(ss: &mut BTreeMap<String, Sid>, req: &str, out: &mut Out) -> (String, bo
             }
         }
         "exec" => {
-            if t.len() != 10 { return bad(); }
+            if t.len() != 11 { return bad(); }
+            let dc: Vec<u64> = t[10].split(':').filter_map(|x| x.parse::<u64>().ok()).collect();
+            if dc.len() != 4 || dc[3] > 1 { return bad(); }
             let (Some(auth), Some(id), Some(fee), Some(throw), Some(dfail), Some(dx), Some(dy)) = (who(&s.w, t[3]), parse_id(t[4]), t[5].parse::<u64>().ok(), t[6].parse::<u8>().ok(), t[7].parse::<u8>().ok(), t[8].parse::<u64>().ok(), t[9].parse::<u64>().ok()) else { return bad() };
-            if throw > 1 || dfail > 2 || (dfail == 2 && id.1 != 'i') { return bad(); }
+            if throw > 1 || dfail > 2 || (dfail == 2 && id.1 != 'i' && id.1 != 'x') || (id.1 != 'x' && dc != [0, 0, 0, 0]) { return bad(); }
             let Some(h) = s.acts.get(&id).cloned() else { return (format!("err | {}", digest(s)), false) };
             let key = h.key();
             let st0 = act_state(&s.w, id);
             let (e0, v0, sup0) = (esc(&s.w, &key), vaults(&s.w), mint_supply(&s.w.b, &s.w.market_token));
             let pos_size = |w: &World| -> u128 { let a = w.b.get(&w.position_key(&h.owner())); if a.data.is_empty() { 0 } else { let p: gmsol_store::states::position::Position = pod(&a.data); p.state.size_in_usd } };
             let ps0 = pos_size(&s.w);
+            let (c0, rec0) = (claim_totals(&s.w), recorded(&s.w));
+            let pos_lam0 = s.w.b.get(&s.w.position_key(&h.owner())).lamports;
             let (al0, kl0) = (s.w.b.get(&key).lamports, s.w.b.get(&auth).lamports);
+            let (lm_, sm_) = (s.w.long, s.w.short);
+            let claim_lam0: Vec<(Pubkey, u64)> = { let ts = s.now; let h0 = s.w.holding(); [(lm_, h.owner()), (sm_, h.owner()), (lm_, h0)].iter().map(|(m, o)| { let k = s.w.claimable_key(m, o, ts); (k, s.w.b.get(&k).lamports) }).collect() };
             let r = run_exec(&mut s.w, auth, &h, fee, throw == 1);
             match r {
                 Err(_) => (format!("err | {}", digest(s)), false),
@@ -781,7 +871,10 @@ fn exec(ss: &mut BTreeMap<String, Sid>, req: &str, out: &mut Out) -> (String, bo
                     if dfail == 2 { out.oracle_fail("an execution declared as a hard failure succeeded", req); }
                     let st1 = act_state(&s.w, id);
                     let (e1, v1, sup1) = (esc(&s.w, &key), vaults(&s.w), mint_supply(&s.w.b, &s.w.market_token));
-                    let paid = s.w.b.get(&auth).lamports - kl0;
+                    let paid = al0 - s.w.b.get(&key).lamports.min(al0);
+                    // (the keeper may also have paid rent for claimable accounts of a decrease execution)
+                    let claim_rent: u64 = if id.1 == 'x' { let ts = s.now; let h0 = s.w.holding(); [(lm_, h.owner()), (sm_, h.owner()), (lm_, h0)].iter().map(|(m, o)| { let k = s.w.claimable_key(m, o, ts); s.w.b.get(&k).lamports - claim_lam0.iter().find(|c| c.0 == k).map(|c| c.1).unwrap_or(0) }).sum() } else { 0 };
+                    if s.w.b.get(&auth).lamports as i128 - kl0 as i128 != paid as i128 - if auth == s.w.keeper { claim_rent as i128 } else { 0 } { out.oracle_fail("keeper lamports: fee received differs from the fee paid by the action", req); }
                     // ---- independent property oracle
                     if st0 != Some(0) { out.oracle_fail("an already completed or cancelled action was executed again", req); }
                     if auth != s.w.keeper { out.oracle_fail("executed by a non-keeper", req); }
@@ -793,11 +886,25 @@ fn exec(ss: &mut BTreeMap<String, Sid>, req: &str, out: &mut Out) -> (String, bo
                                 'w' => e1.2 == 0 && sup0 - sup1 == e0.2 && v0.0 - v1.0 == e1.0 - e0.0 && v0.1 - v1.1 == e1.1 - e0.1,
                                 's' => e1.0 == 0 && v1.0 - v0.0 == e0.0 && v0.1 - v1.1 == e1.1 - e0.1 && sup1 == sup0,
                                 'i' => e1 == (0, 0, 0) && v1.0 - v0.0 == e0.0 && v1.1 == v0.1 && sup1 == sup0,
+                                'x' => { let c1 = claim_totals(&s.w); let r1 = recorded(&s.w);
+                                    // the vault and the recorded balance both drop by exactly what left: outputs + claimables
+                                    e1.2 == 0 && sup1 == sup0 && v0.0 - v1.0 == (e1.0 - e0.0) + (c1.0 - c0.0) && v0.1 - v1.1 == (e1.1 - e0.1) + (c1.1 - c0.1)
+                                        && rec0.0 - r1.0 == v0.0 - v1.0 && rec0.1 - r1.1 == v0.1 - v1.1 }
                                 _ => e1.1 == 0 && v1.1 - v0.1 == e0.1 && v0.0 - v1.0 == e1.0 - e0.0 && sup1 == sup0,
                             };
                             if !ok { out.oracle_fail("completed action: tokens did not move exactly between escrow, vault and supply", req); }
-                            if id.1 == 'i' && pos_size(&s.w) <= ps0 { out.oracle_fail("completed increase order did not grow the position", req); }
-                            if id.1 != 'i' && pos_size(&s.w) != ps0 { out.oracle_fail("a non-position action changed a position", req); }
+                            if id.1 == 'i' && pos_size(&s.w) < ps0 { out.oracle_fail("completed increase order shrank the position", req); }
+                            if id.1 != 'i' && id.1 != 'x' && pos_size(&s.w) != ps0 { out.oracle_fail("a non-position action changed a position", req); }
+                            if id.1 == 'x' {
+                                let pk = s.w.position_key(&h.owner());
+                                let gone = !s.w.b.m.contains_key(&pk);
+                                if pos_size(&s.w) > ps0 { out.oracle_fail("completed decrease order grew the position", req); }
+                                if gone != (dc[3] == 1) { out.oracle_fail("position-closed flag differs from the declared one", req); }
+                                if !gone && pos_size(&s.w) == 0 { out.oracle_fail("a position of size 0 was left open", req); }
+                                if gone && pos_lam0 == 0 { out.oracle_fail("closed a position that did not exist", req); }
+                                let c1 = claim_totals(&s.w);
+                                if (c1.0 - c0.0, c1.1 - c0.1) != (dc[0] + dc[2], dc[1]) { out.oracle_fail("claimable amounts differ from the declared ones", req); }
+                            }
                             if (x, y) != (dx, dy) || dfail == 1 { out.oracle_fail(&format!("result amounts ({x},{y}) differ from the declared ({dx},{dy}) / declared a market failure"), req); }
                             out.stat(&format!("exec.completed.{}", id.1));
                         }
@@ -808,7 +915,7 @@ fn exec(ss: &mut BTreeMap<String, Sid>, req: &str, out: &mut Out) -> (String, bo
                         }
                         _ => out.oracle_fail("execute left the action pending", req),
                     }
-                    if paid != fee.min(h.exec_lamports()) || al0 - s.w.b.get(&key).lamports != paid { out.oracle_fail("execution fee paid differs from min(fee, execution lamports)", req); }
+                    if paid != fee.min(h.exec_lamports()) { out.oracle_fail("execution fee paid differs from min(fee, execution lamports)", req); }
                     s.fees[id.0 as usize] += paid as u128;
                     *s.changes.get_mut(&id).unwrap() += 1;
                     if s.changes[&id] > 1 { out.oracle_fail("action state changed more than once", req); }
@@ -829,7 +936,7 @@ fn exec(ss: &mut BTreeMap<String, Sid>, req: &str, out: &mut Out) -> (String, bo
             let ub = (bal(&s.w, &owner, &lm), bal(&s.w, &owner, &sm), bal(&s.w, &owner, &mt));
             let rb = (bal(&s.w, &receiver, &lm), bal(&s.w, &receiver, &sm), bal(&s.w, &receiver, &mt));
             let ledger0 = s.w.b.clone();
-            let r = match &h { Handle::D(d) => s.w.close_deposit(ex, d, true, true), Handle::W(x) => s.w.close_withdrawal(ex, x), Handle::O(o) => s.w.close_order(ex, o), Handle::P(o) => s.w.close_increase_order(ex, o) };
+            let r = match &h { Handle::D(d) => s.w.close_deposit(ex, d, true, true), Handle::W(x) => s.w.close_withdrawal(ex, x), Handle::O(o) => s.w.close_order(ex, o), Handle::P(o) => s.w.close_increase_order(ex, o), Handle::X(o) => s.w.close_decrease_order(ex, o) };
             match r {
                 Err(_) => {
                     if ex == owner && st0.is_some() { out.oracle_fail("the owner could not close their own action", req); }
@@ -845,7 +952,7 @@ fn exec(ss: &mut BTreeMap<String, Sid>, req: &str, out: &mut Out) -> (String, bo
                     let ua = (bal(&s.w, &owner, &lm), bal(&s.w, &owner, &sm), bal(&s.w, &owner, &mt));
                     let ra = (bal(&s.w, &receiver, &lm), bal(&s.w, &receiver, &sm), bal(&s.w, &receiver, &mt));
                     // input-side escrow (refunds) belongs to the OWNER, output-side escrow (proceeds) to the RECEIVER
-                    let (refund, proceeds) = match id.1 { 'd' => ((e0.0, e0.1, 0), (0, 0, e0.2)), 'w' => ((0, 0, e0.2), (e0.0, e0.1, 0)), 's' => ((e0.0, 0, 0), (0, e0.1, 0)), 't' => ((0, e0.1, 0), (e0.0, 0, 0)), _ => ((e0.0, 0, 0), (0, e0.1, 0)) };
+                    let (refund, proceeds) = match id.1 { 'd' => ((e0.0, e0.1, 0), (0, 0, e0.2)), 'w' => ((0, 0, e0.2), (e0.0, e0.1, 0)), 's' => ((e0.0, 0, 0), (0, e0.1, 0)), 't' => ((0, e0.1, 0), (e0.0, 0, 0)), 'x' => ((0, 0, 0), (e0.0, e0.1, 0)), _ => ((e0.0, 0, 0), (0, e0.1, 0)) };
                     if receiver == owner {
                         if (ua.0 - ub.0, ua.1 - ub.1, ua.2 - ub.2) != e0 { out.oracle_fail("escrowed tokens did not all go home to the owner", req); }
                     } else {
@@ -875,25 +982,27 @@ fn gen_next(r: &mut Rng, ss: &BTreeMap<String, Sid>, g: &mut Gen) -> String {
     let sid = format!("w{}", g.sid);
     let s = &ss[&sid];
     let live: Vec<(Id, Option<u8>)> = s.acts.keys().filter(|id| s.w.b.m.contains_key(&action_key(&s.w, **id))).map(|id| (*id, act_state(&s.w, *id))).collect();
-    let rand_id = |r: &mut Rng| (r.below(NUSERS as u64) as u8, ['d', 'w', 's', 't', 'i'][r.below(5) as usize], r.below(NSLOTS as u64) as u8);
+    let rand_id = |r: &mut Rng| (r.below(NUSERS as u64) as u8, ['d', 'w', 's', 't', 'i', 'x'][r.below(6) as usize], r.below(NSLOTS as u64) as u8);
     let pick = |r: &mut Rng| if live.is_empty() || r.chance(1, 8) { (rand_id(r), None) } else { live[r.below(live.len() as u64) as usize] };
     let ids = |id: Id| format!("{}.{}.{}", id.0, id.1, id.2);
     match r.below(13) {
         0 => format!("l2 tick {sid} {}", match r.below(5) { 0 => r.range(100, 200), 1 => r.range(3500, 3700), _ => r.range(0, 60) }),
-        1 => format!("l2 price {sid} {}", match r.below(8) { 0 => r.range(110, 130), 1 => r.range(3590, 3610), 2 => r.range(1, 30), _ => 0 }),
+        1 => if r.chance(1, 3) { format!("l2 pricex {sid} 0 {}", r.range(120, 185)) } else { format!("l2 price {sid} {}", match r.below(8) { 0 => r.range(110, 130), 1 => r.range(3590, 3610), 2 => r.range(1, 30), _ => 0 }) },
         2 | 3 | 4 | 5 => {
             let u = r.below(NUSERS as u64) as u8;
             let owner = user_key(u);
             let have_mt = bal(&s.w, &owner, &s.w.market_token);
             let pool = vaults(&s.w);
             // withdrawals / swaps need liquidity: prefer deposits while the pool is empty
-            let k = if pool.0 == 0 { if r.chance(5, 6) { 'd' } else { ['w', 's', 't'][r.below(3) as usize] } } else { match r.below(12) { 0 | 1 => 'd', 2 | 3 | 4 | 5 => if have_mt > 0 { 'w' } else { 'd' }, 6 | 7 => 's', 8 | 9 => 'i', _ => 't' } };
+            let k = if pool.0 == 0 { if r.chance(5, 6) { 'd' } else { ['w', 's', 't'][r.below(3) as usize] } } else { match r.below(14) { 0 | 1 => 'd', 2 | 3 | 4 => if have_mt > 0 { 'w' } else { 'd' }, 5 | 6 => 's', 7 | 8 | 9 => 'i', 10 | 11 | 12 => if pos_info(&s.w, u).unwrap_or(0) > 0 || r.chance(1, 6) { 'x' } else { 'i' }, _ => 't' } };
             let i = if r.chance(5, 6) { (0..NSLOTS).find(|i| !live.iter().any(|l| l.0 == (u, k, *i))).unwrap_or(r.below(NSLOTS as u64) as u8) } else { r.below(NSLOTS as u64) as u8 };
             let (a, b) = match k {
                 'd' => (match r.below(6) { 0 => 0, 1 => LONG0 + 1, _ => r.range(1, 5_000_000_000) }, match r.below(6) { 0 => 0, 1 => SHORT0 + 1, _ => r.range(1, 500_000_000) }),
                 'w' => (match r.below(6) { 0 => 0, 1 => have_mt.saturating_add(1), 2 => have_mt, _ => if have_mt == 0 { r.range(1, 1000) } else { r.next() % have_mt + 1 } }, 0),
                 's' => (match r.below(8) { 0 => 0, 1 => LONG0 + 1, 2 => r.range(1, 20_000_000_000), _ => r.range(1, 300_000_000) }, 0),
                 'i' => (match r.below(8) { 0 => 0, 1 => LONG0 + 1, 2 => r.range(1, 1000), _ => r.range(10_000_000, 500_000_000) }, match r.below(8) { 0 => 0, 1 => r.range(1, 5), 2 => r.range(10_000, 1_000_000), _ => r.range(5, 300) }),
+                'x' => { let sz = pos_info(&s.w, u).unwrap_or(0) as u64; // size in cents: partial, full, size - half a unit (promoted), more than the position, zero
+                    (match r.below(5) { 0 => r.range(1, 50_000_000), _ => 0 }, match r.below(8) { 0 => 0, 1 | 2 => sz, 3 => sz.saturating_sub(50), 4 => sz.saturating_add(r.range(1, 10_000)), _ => if sz == 0 { r.range(1, 10_000) } else { r.next() % sz + 1 } }) }
                 _ => (match r.below(8) { 0 => 0, 1 => SHORT0 + 1, 2 => r.range(1, 3_000_000_000), _ => r.range(1, 50_000_000) }, 0),
             };
             let el = match r.below(8) { 0 => r.range(0, 299_999), _ => r.range(300_000, 5_000_000) };
@@ -901,7 +1010,9 @@ fn gen_next(r: &mut Rng, ss: &BTreeMap<String, Sid>, g: &mut Gen) -> String {
             format!("l2 create {sid} {u} {k} {i} {a} {b} {}:{el}:{rc}", if r.chance(1, if k == 'w' { 2 } else { 4 }) { 1 } else { 0 })
         }
         6 | 7 | 8 | 9 => {
-            let (id, st) = pick(r);
+            // pending decrease orders are executed with priority (they are the rarest path)
+            let px: Vec<&(Id, Option<u8>)> = live.iter().filter(|l| l.0 .1 == 'x' && l.1 == Some(0)).collect();
+            let (id, st) = if !px.is_empty() && r.chance(1, 2) { *px[r.below(px.len() as u64) as usize] } else { pick(r) };
             let whoo = if r.chance(9, 10) { "k".to_string() } else if r.chance(1, 2) { "a".into() } else { format!("u{}", r.below(NUSERS as u64)) };
             let fee = match r.below(4) { 0 => 0, 1 => 100_000_000, _ => r.range(1, 3_000_000) };
             let throw = r.below(2) as u8;
@@ -909,17 +1020,27 @@ fn gen_next(r: &mut Rng, ss: &BTreeMap<String, Sid>, g: &mut Gen) -> String {
             // dry run on a copy of the world: the result amounts are what the pool maths decides (declared in the request)
             // (the request also declares whether the pool maths rejects the action: a soft failure the accounting model cannot predict)
             let (mut x, mut y, mut f) = (0, 0, 0);
+            let mut dc = [0u64; 4];
             if let (Some(h), Some(auth)) = (s.acts.get(&id), who(&s.w, &whoo)) {
                 let mut w2 = s.w.clone();
+                let c0 = claim_totals(&w2);
                 NOW.store(s.now, Ordering::SeqCst);
                 if fresh { w2.set_prices(150_00000000, 1_00000000, s.now); }
                 if run_exec(&mut w2, auth, h, fee, false).is_ok() {
-                    match act_state(&w2, id) { Some(1) => { (x, y) = result_amounts(&w2, id, &h.key()); } Some(2) => { f = 1; } _ => {} }
-                } else if id.1 == 'i' { f = 2; } // position orders: some pool-maths rejections are hard errors even without `throw`
+                    match act_state(&w2, id) { Some(1) => { (x, y) = result_amounts(&w2, id, &h.key());
+                        if id.1 == 'x' { let c1 = claim_totals(&w2); dc = [c1.0 - c0.0, c1.1 - c0.1, 0, (!w2.b.m.contains_key(&w2.position_key(&h.owner()))) as u64]; } }
+                        Some(2) => { f = 1; } _ => {} }
+                } else if id.1 == 'i' || id.1 == 'x' { f = 2; } // position orders: some pool-maths rejections are hard errors even without `throw`
             }
-            let e = format!("l2 exec {sid} {whoo} {} {fee} {throw} {f} {x} {y}", ids(id));
+            let e = format!("l2 exec {sid} {whoo} {} {fee} {throw} {f} {x} {y} {}:{}:{}:{}", ids(id), dc[0], dc[1], dc[2], dc[3]);
             // after an execute, often a keeper (sometimes the receiver or the owner) closes that very action while it still holds escrow
-            if st == Some(0) && r.chance(1, 2) {
+            if st == Some(0) && id.1 == 'i' && x == 0 && f == 0 && r.chance(2, 3) {
+                // a position is (probably) open now: decrease it — partially, fully, or by size - half a unit
+                let sz = pos_info(&s.w, id.0).unwrap_or(0) as u64 + s.acts.get(&id).map(|_| 0).unwrap_or(0);
+                let slot = (0..NSLOTS).find(|i| !live.iter().any(|l| l.0 == (id.0, 'x', *i))).unwrap_or(0);
+                let b = match r.below(4) { 0 => 1_000_000_000, 1 => r.range(100, 5000), _ => sz.max(100) / 2 };
+                g.queue.push(format!("l2 create {sid} {} x {slot} {} {b} 0:{}:{}", id.0, if r.chance(1, 3) { r.range(1, 10_000_000) } else { 0 }, r.range(300_000, 2_000_000), if r.chance(1, 2) { id.0 } else { r.below(NUSERS as u64) as u8 }));
+            } else if st == Some(0) && r.chance(1, 2) {
                 let closer = match r.below(6) { 0 | 1 | 2 => "k".to_string(), 3 => s.acts.get(&id).map(|h| format!("u{}", h.receiver().to_bytes()[0] - 100)).unwrap_or("k".into()), _ => format!("u{}", id.0) };
                 g.queue.push(format!("l2 close {sid} {closer} {}", ids(id)));
             }
